@@ -115,7 +115,8 @@ def tag_of(name):
     if re.match(r"^ncell_f\d+$", base):
         return "ncell_f"
     # stencils (call: f<i>_..., stub: field_<i>_...)
-    m = re.match(r"^(?:f|field_)\d+_(stencil_size|max_branch_length|direction|stencil_dofmap)$", base)
+    # (PSyclone appends _<n> when several kernels of one invoke have a stencil on the same field)
+    m = re.match(r"^(?:f|field_)\d+_(stencil_size|max_branch_length|direction|stencil_dofmap)(?:_\d+)?$", base)
     if m:
         return {"stencil_size": "st_size", "max_branch_length": "st_max", "direction": "st_dir",
                 "stencil_dofmap": "st_map"}[m.group(1)]
